@@ -1,7 +1,9 @@
 #!/usr/bin/env python3
 """tools/add_known.py <Cxx> [substring]: append known-finding entries for the violation keys currently in replays/<Cxx>
 (after manual triage!). The `what` text is derived from the violation description."""
-import json,glob,sys,re
+import json,glob,sys,re,os
+if os.popen('git -C /repo status --porcelain').read().strip():
+    sys.exit("refusing: /repo has uncommitted changes (a seeded patch applied?) — replays may not come from the unchanged tree")
 prop=sys.argv[1]; pat=sys.argv[2] if len(sys.argv)>2 else ''
 p='/verif/known_findings.json'
 k=json.load(open(p))
@@ -19,5 +21,6 @@ for f in sorted(glob.glob('/verif/replays/%s/*.json'%prop)):
     what=first[:260]+(' — e.g. input: '+inp if inp else '')
     k['findings'].append({"property":prop,"key":d['key'],"status":"known","what":what})
     have.add((prop,d['key'])); n+=1
+    print('  +', d['key'])
 json.dump(k,open(p,'w'),indent=1)
 print("added",n)
